@@ -31,6 +31,7 @@ import (
 	"sort"
 	"strconv"
 	"strings"
+	"sync"
 	"time"
 
 	"github.com/santhosh-tekuri/jsonschema/v6"
@@ -164,6 +165,7 @@ type caseT struct {
 	Pause  bool  `json:"pause,omitempty"` // 1.1 s between two of the generations
 	Exec   bool  `json:"exec,omitempty"`  // one of the generations in a fresh process
 	App    bool  `json:"app,omitempty"`   // also serve the operations from two app instances and compare body and ETag
+	Cold   bool  `json:"cold,omitempty"`  // first-use concurrency: 8 goroutines validate for the first time in a fresh process
 }
 
 func (o *opT) method() string {
@@ -366,6 +368,128 @@ func validatorAgrees(c *caseT, js []byte) bool {
 }
 
 var repoValidator = validate.New()
+
+// ---------------------------------------------------------------------------------------------
+// first-use concurrency of the built-in validation. The compiled meta-schemas are cached per process
+// (one package-level validator serves every API), so the probe runs in a FRESH process: `cold` reads
+// the case from stdin, prepares 8 APIs (validation on) with their own operation values, releases
+// them on a barrier and counts the calls that did not return the document; then it does the same
+// with fresh exported validators (validate.New()) on the produced document, three rounds.
+// Oracle (the statement): a document the meta-schema accepts is never rejected by validation-on.
+
+const coldWorkers = 8
+
+func coldMain() {
+	var c caseT
+	if err := json.NewDecoder(os.Stdin).Decode(&c); err != nil {
+		fmt.Println("cold bad-case")
+		return
+	}
+	ver, vv := openapi.V30x, validate.V30
+	if c.V31 {
+		ver, vv = openapi.V31x, validate.V31
+	}
+	type prepT struct {
+		api *openapi.API
+		ops []openapi.Operation
+	}
+	preps := make([]prepT, coldWorkers)
+	for i := range preps {
+		preps[i].api = openapi.MustNew(openapi.WithTitle("t", "1"), openapi.WithVersion(ver),
+			openapi.WithStrictDownlevel(c.Strict), openapi.WithValidation(true))
+		for k := range c.Ops {
+			preps[i].ops = append(preps[i].ops, c.Ops[k].construct())
+		}
+	}
+	var (
+		start = make(chan struct{})
+		wg    sync.WaitGroup
+		errs  = make([]string, coldWorkers)
+		docs  = make([][]byte, coldWorkers)
+	)
+	for i := range preps {
+		wg.Add(1)
+		go func() {
+			defer wg.Done()
+			defer func() {
+				if p := recover(); p != nil {
+					errs[i] = "panic"
+				}
+			}()
+			<-start
+			r, err := preps[i].api.Generate(context.Background(), preps[i].ops...)
+			if err != nil {
+				errs[i] = classify(err)
+				return
+			}
+			docs[i] = r.JSON
+		}()
+	}
+	close(start)
+	wg.Wait()
+	okN, rejected, other := 0, 0, 0
+	var doc []byte
+	for i := range errs {
+		switch errs[i] {
+		case "":
+			okN++
+			doc = docs[i]
+		case "validation":
+			rejected++
+		default:
+			other++
+		}
+	}
+	// the exported validator, cold, on the produced document
+	vrej := 0
+	if doc == nil {
+		if r := generate(&c, false); r.kind == "D" {
+			doc = r.json
+		}
+	}
+	for round := 0; doc != nil && round < 3; round++ {
+		v := validate.New()
+		st := make(chan struct{})
+		res := make([]error, coldWorkers)
+		var wg2 sync.WaitGroup
+		for i := 0; i < coldWorkers; i++ {
+			wg2.Add(1)
+			go func() {
+				defer wg2.Done()
+				<-st
+				res[i] = v.Validate(context.Background(), doc, vv)
+			}()
+		}
+		close(st)
+		wg2.Wait()
+		for _, e := range res {
+			if e != nil {
+				vrej++
+			}
+		}
+	}
+	fmt.Printf("cold ok=%d rejected=%d other=%d vrejected=%d\n", okN, rejected, other, vrej)
+}
+
+// coldProbe runs the probe in a fresh process; ran=false when the process could not be run.
+func coldProbe(c *caseT) (clean bool, ran bool, detail string) {
+	self, err := os.Executable()
+	if err != nil {
+		return true, false, ""
+	}
+	js, _ := json.Marshal(c)
+	cmd := exec.Command(self, "cold")
+	cmd.Stdin = bytes.NewReader(js)
+	out, err := cmd.Output()
+	if err != nil {
+		return true, false, ""
+	}
+	var okN, rej, other, vrej int
+	if n, _ := fmt.Sscanf(strings.TrimSpace(string(out)), "cold ok=%d rejected=%d other=%d vrejected=%d", &okN, &rej, &other, &vrej); n != 4 {
+		return true, false, ""
+	}
+	return okN == coldWorkers && rej == 0 && other == 0 && vrej == 0, true, strings.TrimSpace(string(out))
+}
 
 // ---------------------------------------------------------------------------------------------
 // the served specification: GET <spec path> on an app (body + ETag)
@@ -905,12 +1029,12 @@ func emit(id string, c *caseT, st *hx.Stats) string {
 	l.Sep()
 	if pending != nil {
 		// what the supervisor reports if the real code kills the process (fatal stack overflow)
-		pending(in + " => P P 0 0 0 1 1" + hx.Comment(c))
+		pending(in + " => P P 0 0 0 1 1 1" + hx.Comment(c))
 	}
 
 	off := generate(c, false)
 	on := generate(c, true)
-	mv, rr, stable, va, appOK := false, false, true, true, true
+	mv, rr, stable, va, appOK, coldOK := false, false, true, true, true, true
 	switch off.kind {
 	case "CP":
 		l.Tok("CP")
@@ -939,6 +1063,17 @@ func emit(id string, c *caseT, st *hx.Stats) string {
 		if c.App {
 			appOK = appProbe(c, st)
 		}
+		if c.Cold && mv {
+			clean, ran, _ := coldProbe(c)
+			coldOK = clean
+			if st != nil {
+				if ran {
+					st.Count("cold_probe")
+				} else {
+					st.Count("cold_probe_skipped")
+				}
+			}
+		}
 	}
 	switch on.kind {
 	case "CP":
@@ -954,7 +1089,7 @@ func emit(id string, c *caseT, st *hx.Stats) string {
 			l.Tok("X")
 		}
 	}
-	l.Bool(mv).Bool(rr).Bool(stable).Bool(va).Bool(appOK)
+	l.Bool(mv).Bool(rr).Bool(stable).Bool(va).Bool(appOK).Bool(coldOK)
 	if st != nil {
 		sh := shapes(e)
 		st.Case(in[len(id):], sh.ptrSliceMap || sh.embed2)
@@ -1257,6 +1392,12 @@ func fixedCases() []caseT {
 			// K07b: time.Time example, generations 1.1 s apart and in a fresh process
 			caseT{V31: v31, Pause: true, Exec: true, Ops: []opT{{Ctor: "GET", Path: "/t", Resps: ok(TX{K: "struct",
 				F: []FX{{Name: "When", Tag: `json:"when"`, T: TX{K: "time"}}}})}}},
+			// first-use concurrency of validation-on in a fresh process (cold meta-schema cache)
+			caseT{V31: v31, Cold: true, Ops: []opT{{Ctor: "GET", Path: "/ping", Summary: "Ping", Resps: ok(TX{K: "struct",
+				F: []FX{{Name: "OK", Tag: `json:"ok"`, T: TX{K: "prim", P: "bool"}}}})}}},
+			caseT{V31: v31, Cold: true, Strict: true, Ops: []opT{
+				{Ctor: "POST", Path: "/u/:id", Summary: "s", Req: &TX{K: "req", I: 0}, Resps: ok(ct("pa.Item"))},
+				{Ctor: "GET", Path: "/n", Resps: []respT{{200, ct("pa.Node")}, {404, TX{K: "nil"}}}}}},
 			// the served specification: body and ETag of two app instances 1.1 s apart (K07b, K07h shapes)
 			caseT{V31: v31, Pause: true, App: true, Ops: []opT{
 				{Ctor: "GET", Path: "/t/:id", Summary: "s", Resps: ok(TX{K: "struct", F: []FX{{Name: "When", Tag: `json:"when"`, T: TX{K: "time"}}}})},
@@ -1316,6 +1457,10 @@ func fixedCases() []caseT {
 }
 
 func main() {
+	if len(os.Args) >= 2 && os.Args[1] == "cold" {
+		coldMain()
+		return
+	}
 	if len(os.Args) >= 2 && os.Args[1] == "one" {
 		// print the sha256 of one generation of the case read from stdin (fresh-process determinism)
 		var c caseT
@@ -1373,9 +1518,9 @@ func main() {
 		for i, c := range fixedCases() {
 			run(fmt.Sprintf("c07-fix-%d", i), &c, st)
 		}
-		pauses, execs, apps := 2, 3, 3
+		pauses, execs, apps, colds := 2, 3, 3, 4
 		if a.Tier == "thorough" {
-			pauses, execs, apps = 4, 12, 10
+			pauses, execs, apps, colds = 4, 12, 10, 16
 		}
 		for i := 0; i < a.N; i++ {
 			c := genCase(r)
@@ -1390,6 +1535,10 @@ func main() {
 			if apps > 0 && r.Chance(1, 20) && appEligible(&c) {
 				c.App = true
 				apps--
+			}
+			if colds > 0 && r.Chance(1, 12) && len(c.Ops) > 0 {
+				c.Cold = true
+				colds--
 			}
 			run(fmt.Sprintf("c07-%d-%d", a.Seed, i), &c, st)
 		}
